@@ -480,3 +480,55 @@ def report_broken(rep, ob, disagreements, stream, found_input):
                       {"kind": "correspondence", "broken_obligations": ob["broken"], "stream": stream,
                        "first_disagreement": first, "n_disagreements": len(disagreements),
                        "coq_log": ob.get("log", "")}, no_input=True)
+
+
+# ----------------------------------------------------------------------------------------
+# replay of a recorded violation
+
+def generic_replay(path):
+    """Re-runs the recorded case of a replay file on the implementation (and the model where the stream has one) and
+    prints what each says now. Exit 1 if the implementation still answers as recorded (the violation reproduces),
+    0 if it answers differently, 2 if the file holds nothing that can be re-run generically."""
+    r = json.load(open(path))
+    print(f"replay of property={r.get('property')} kind={r.get('kind')}: {r.get('what', '')[:300]}")
+    case = r.get("case") or (r.get("first_disagreement") or [None])[0]
+    if not case or not isinstance(case, str):
+        print(json.dumps(r, indent=1)[:4000])
+        print("nothing to re-run generically: the replay names the theorem / stream that no longer checks")
+        return 2
+    head = case.split(" ", 1)[0]
+    harness = build_harness(r.get("profile", "release") if r.get("profile") in ("release", "debug") else "release")
+    wd = workdir("replay")
+    f = os.path.join(wd, "case.txt")
+    if head in ("rt", "enc", "dec", "xrt", "urt", "encu", "encit"):
+        lines = []
+        if r.get("writer_env"):
+            lines += [f"E {r['writer_env']}", f"E2 {r.get('reader_env', '-')}"]
+        else:
+            lines.append(f"E {r.get('env', '-')}")
+        write_lines(f, lines + [case])
+        cmd = "codec"
+    elif head in ("srt", "sx", "senc", "sdec", "mrt", "mdec"):
+        write_lines(f, [case])
+        cmd = "static"
+    else:
+        print(json.dumps(r, indent=1)[:4000])
+        print(f"stream `{head}` has no generic replay; see the `rerun` / `case` fields above")
+        return 2
+    p = run([harness, cmd, f], check=False, timeout=600)
+    out = [l for l in (p.stdout or "").splitlines() if l != "env"]
+    now = out[-1] if out else f"(no output, exit {p.returncode})"
+    print("case          :", case[:400])
+    print("recorded      :", str(r.get("implementation"))[:400])
+    print("implementation:", now[:400])
+    if cmd == "codec":
+        try:
+            m = run([build_model(), "codec", f], check=False, timeout=600)
+            mo = [l for l in (m.stdout or "").splitlines() if l != "env"]
+            print("model         :", (mo[-1] if mo else "(no output)")[:400])
+        except Undecided as e:
+            print("model         : not available:", str(e)[:200])
+    rec = str(r.get("implementation", ""))
+    same = rec and (now == rec or now.startswith(rec[:60]) or rec.startswith(now[:60]))
+    print("still reproduces" if same else "answers differently now")
+    return 1 if same else 0
